@@ -243,9 +243,13 @@ def main():
                         with open(os.path.join(d, "a" + ext), "wb") as fh:
                             fh.write(gdlib.container_encode(enc, payload, ext))
                         k1 = rng.randint(0, max(0, n - 1)); k2 = rng.randint(1, max(1, n - k1))
+                        # a read that starts before the frame offset (front padding) and runs into the stored data
+                        pre = rng.randint(1, off * spf) if off else 0
+                        k3 = rng.randint(1, max(1, min(n, 9)))
                         script += ["open %s ro" % d, "get a %d %d 0 %d" % (t, off, n + 3), "nframes", "enc 0",
-                                   "get a %d %d 0 %d" % (t, off, min(n, 5)), "get a %d %d %d %d" % (t, off, k1, k2), "close"]
-                        rcases.append({"dir": d, "t": t, "sex": sex, "enc": enc, "ext": ext, "off": off, "spf": spf, "n": n, "k1": k1, "k2": k2,
+                                   "get a %d %d 0 %d" % (t, off, min(n, 5)), "get a %d %d %d %d" % (t, off, k1, k2),
+                                   "get a %d 0 %d %d" % (t, off * spf - pre, pre + k3), "close"]
+                        rcases.append({"dir": d, "t": t, "sex": sex, "enc": enc, "ext": ext, "off": off, "spf": spf, "n": n, "k1": k1, "k2": k2, "pre": pre, "k3": k3,
                                        "comps": comps, "payload": payload})
     rc, out = vlib.sh([exe], inp=("\n".join(script) + "\n").encode(), timeout=1500)
     res = out.strip().split("\n")
@@ -268,7 +272,7 @@ def main():
         return chk.finish()
     for k, c in enumerate(rcases):
         t, sex, enc = c["t"], c["sex"], c["enc"]
-        r_open, r_get, r_nf, r_enc, r_get2, r_get3, r_close = res[7 * k:7 * k + 7]
+        r_open, r_get, r_nf, r_enc, r_get2, r_get3, r_get4, r_close = res[8 * k:8 * k + 8]
         key = "read/%s%s/%s/%s" % (enc, c["ext"] if c["ext"] == ".lzma" else "", NAMES[t], sex)
         chk.cov["evaluations"] += 1
         g = gdlib.parse_get(r_get)
@@ -284,6 +288,20 @@ def main():
         if g2 is None or g2[1] != 0 or g2[2] != w2 or g3 is None or g3[1] != 0 or g3[2] != w3:
             spec_bad.setdefault(key + "/re-read", []).append((c, "after reading the whole field, reading its beginning again gives %s (expected %s) and samples %d..%d give %s (expected %s)" % (
                 r_get2[:120], gdlib.hexs(w2)[:80], c["k1"], c["k1"] + c["k2"], r_get3[:120], gdlib.hexs(w3)[:80])))
+            continue
+        g4 = gdlib.parse_get(r_get4)
+        npad = c["pre"] * nc_
+        w4 = c["comps"][:min(c["k3"], c["n"]) * nc_]
+
+        def is_pad(z):
+            if not ISFLOAT[t]:
+                return z == 0
+            w_ = CSIZE[t]
+            ebits, mbits = (8, 23) if w_ == 4 else (11, 52)
+            return ((z >> mbits) & ((1 << ebits) - 1)) == (1 << ebits) - 1 and (z & ((1 << mbits) - 1)) != 0
+        if g4 is None or g4[1] != 0 or len(g4[2]) != npad + len(w4) or not all(is_pad(z) for z in g4[2][:npad]) or g4[2][npad:] != w4:
+            spec_bad.setdefault(key + "/straddling-the-frame-offset", []).append((c, "a read starting %d samples before the frame offset gives %s; expected %d padding samples (zero / NaN) followed by %s" % (
+                c["pre"], r_get4[:200], c["pre"], gdlib.hexs(w4)[:100])))
             continue
         if M[k] != "?":
             m = M[k].split()
